@@ -380,3 +380,31 @@ def scale_rel_font(paths, upem):
     fb.setupCFF("VerifC17Rel", {}, cs, {})
     _finish(fb, names, {n: (600, 0) for n in names}, upem)
     return _bytes(fb.font), names
+
+
+def point_matched_ttf():
+    """TrueType font with a composite whose second component is attached by POINT MATCHING (ARGS_ARE_XY_VALUES clear:
+    the arguments are point numbers, there is no x/y offset) next to ordinary components."""
+    from fontTools.ttLib.tables._g_l_y_f import Glyph, GlyphComponent
+
+    names = [".notdef", "A", "B", "dot", "Adot", "Bdot"]
+    fb = FontBuilder(1000, isTTF=True)
+    fb.setupGlyphOrder(names)
+    fb.setupCharacterMap({0x41: "A", 0x42: "B", 0x2E: "dot", 0xC4: "Adot", 0xC5: "Bdot"})
+    glyphs = {}
+    for i, n in enumerate(names[:4]):
+        pen = TTGlyphPen(None)
+        _box(pen, 10 * i, 0, 300 + 51 * i, 701 - 100 * i)
+        glyphs[n] = pen.glyph()
+    for n, base, pt in (("Adot", "A", 2), ("Bdot", "B", 1)):
+        g = Glyph()
+        g.numberOfContours = -1
+        c1 = GlyphComponent()
+        c1.glyphName, c1.x, c1.y, c1.flags = base, 13, -7, 0x2
+        c2 = GlyphComponent()
+        c2.glyphName, c2.firstPt, c2.secondPt, c2.flags = "dot", pt, 0, 0
+        g.components = [c1, c2]
+        glyphs[n] = g
+    fb.setupGlyf(glyphs)
+    _finish(fb, names, {n: (600 + 7 * i, 10 * i) for i, n in enumerate(names)})
+    return _bytes(fb.font), names
